@@ -1778,6 +1778,11 @@ def _structured_const(j):
     if "arr" in j:
         items = [_structured_const(x) for x in j["arr"]]
         return None if any(x is None for x in items) else VecV(items)
+    if "enum" in j:
+        fs = [_structured_const(f) for f in j.get("fields", [])]
+        if any(x is None for x in fs):
+            return None
+        return EnumV(j["enum"], {j["variant"]: (tuple(fs), {})})
     if "struct" in j and (j["struct"].startswith("std::ops::Range") or not j["struct"].split("::")[0] in ("std", "core", "alloc", "chrono")):
         fs = {f["name"]: _structured_const(f["v"]) for f in j.get("fields", [])}
         return None if any(x is None for x in fs.values()) else StructV(j["struct"], fs)
